@@ -11,13 +11,20 @@
       every required candidate extends the typed word and comes from the lowest level that has a
       candidate; required is included in allowed; the only extra allowed text is the typed word;
     - matching does not depend on || levels ([C01_matching_ignores_levels]);
-    - word-break stripping ([C01_strip_*]).
+    - word-break stripping ([C01_strip_*]);
+    - the decided restriction of the quantifier has a declarative reading ([C01_domain_sound]:
+      [C01_domain e = true -> in_domain e]) that holds at every point the specification visits
+      along an unambiguous line ([C01_domain_along_runs]).
+
+    Both script mechanisms that [Spec.KnownC01] describes were repaired in /repo (1567cbe, df274e8)
+    while this package was built, so the statement below has no [~ Known] hypothesis any more; the
+    predicates stay as classifiers (a repaired mechanism that comes back is a violation).
 
     NOT proved here: [C01_bash_meaning_statement], the statement about the script itself.  It needs
     the interpreter of the bash skeleton (Model/BashSem.v, another work package); it is stated
     below over an abstract interpreter so that it can be instantiated after the merge. *)
 From CG Require Import Base.Prelude Model.Ast Model.Check Spec.Rx Spec.Meaning Spec.KnownC01 Spec.Domain
-     Proofs.RxFacts Proofs.MeaningFacts Proofs.MeaningLevels.
+     Proofs.RxFacts Proofs.MeaningFacts Proofs.MeaningLevels Proofs.DomainFacts.
 
 (** The full statement, over an abstract interpreter [script_run] of the script emitted for the
     validated grammar [e] ([None] = exit status 1, [Some reply] = exit status 0 with COMPREPLY). *)
@@ -26,7 +33,6 @@ Definition C01_bash_meaning_statement
   forall e en ws p,
     C01_domain e = true -> C01_env_ok e en = true ->
     ambiguous_run en (start e) ws = false ->
-    piece_boundary e en ws = false ->
     match complete e en ws p, script_run e en ws p with
     | None, None => True
     | Some (req, al), Some reply => incl req reply /\ incl reply al
@@ -114,6 +120,22 @@ Theorem C01_strip_without_breaks :
 Proof. exact strip_id. Qed.
 Check C01_strip_without_breaks : forall wb p c, has_break wb p = false -> strip wb p c = c.
 Print Assumptions C01_strip_without_breaks.
+
+Theorem C01_domain_sound : forall e, C01_domain e = true -> in_domain e.
+Proof. exact DomainFacts.C01_domain_sound. Qed.
+Check C01_domain_sound : forall e, C01_domain e = true -> in_domain e.
+Print Assumptions C01_domain_sound.
+
+Theorem C01_domain_along_runs :
+  forall e en ws,
+    C01_domain e = true -> ambiguous_run en (start e) ws = false -> matched en e ws = true ->
+    point_decl (moves (run en (start e) ws)).
+Proof. exact DomainFacts.C01_domain_along_runs. Qed.
+Check C01_domain_along_runs :
+  forall e en ws,
+    C01_domain e = true -> ambiguous_run en (start e) ws = false -> matched en e ws = true ->
+    point_decl (moves (run en (start e) ws)).
+Print Assumptions C01_domain_along_runs.
 
 (** Non-vacuity: a grammar with two || levels, a within-word expression and a command is inside
     the domain, and the specification computes the answers one expects from the README. *)
